@@ -384,7 +384,11 @@ func (w *World) ruleXorLanes(rule, repo string) {
 				return
 			}
 			ia, ok := st.Addr.(*ssa.IndexAddr)
-			if !ok || !strings.HasSuffix(render(ia.X), ".a") {
+			if !ok {
+				return
+			}
+			// the 25-lane state: the sponge's array field, or a pointer to it handed in as a parameter
+			if arr, isArr := deref(ia.X.Type()).Underlying().(*types.Array); !isArr || arr.Len() != 25 {
 				return
 			}
 			n++
